@@ -604,6 +604,13 @@ fn scene_from_xml(root: &Elem, s: &mut Scene, r: &mut Report) {
     s.format_name = s_opt(root, "formatName").unwrap_or_default();
     s.guid = s_opt(root, "guid").unwrap_or_default();
     s.version = (i_opt(root, "versionMajor", "e57Root", r).unwrap_or(0), i_opt(root, "versionMinor", "e57Root", r).unwrap_or(0));
+    // the constants of the format: a version 1.0 file says so in the XML as it does in the header
+    if s.version != (1, 0) {
+        r.p("R4", format!("e57Root: versionMajor/versionMinor are {}.{}, this format is 1.0", s.version.0, s.version.1));
+    }
+    if s.format_name != "ASTM E57 3D Imaging Data File" {
+        r.p("R4", format!("e57Root: formatName is {:?}", s.format_name));
+    }
     s.library_version = s_opt(root, "e57LibraryVersion");
     s.coordinate_metadata = s_opt(root, "coordinateMetadata");
     s.creation = dt_opt(root, "creationDateTime", "e57Root", r);
